@@ -475,6 +475,14 @@ def minimise(engine_factory, events, sig, budget=400):
                     head = [cand_ev]
                     changed = True
                     break
+    # simplification can turn events into no-ops: one more removal pass
+    i = 0
+    while i < len(body) and calls[0] < budget + 60:
+        cand = body[:i] + body[i + 1:]
+        if fails(head + cand):
+            body = cand
+        else:
+            i += 1
     return head + body, True
 
 
